@@ -4,7 +4,8 @@
 # without the patch the demo passes.  Writes /verif/seeded/ID/{patch.diff,<demo>,confirm.log}.
 set -u
 ID=$1; DEMO=$2; PKG=$3; RX=$4
-W=/tmp/seed/$ID; O=/tmp/seed/$ID-out; D=/verif/seeded/$ID
+BASE=${SEEDBASE:-/tmp/seed}; SUF=${SEEDSUFFIX:-}
+W=$BASE/$ID; O=$BASE/$ID-out; D=/verif/seeded/$ID$SUF
 export GOFLAGS=-mod=mod GOPROXY=off
 mkdir -p $D; cp $O/patch.diff $D/patch.diff; cp $O/$DEMO $D/$DEMO
 cd $W && git checkout -q -- . && git clean -fdq
@@ -14,6 +15,12 @@ echo "== with patch: go build ./... && go vet-less full suite (go test -count=1 
 go build ./... >> $LOG 2>&1 && echo "BUILD-OK" >> $LOG
 go test -vet=off -count=1 ./... 2>&1 | grep -v "no test files" | tail -40 >> $LOG
 SUITE=${PIPESTATUS[0]}
+if [ "$SUITE" != 0 ]; then
+  # the repository has a test that flakes under load on the unchanged tree too: re-run the failing packages once
+  echo "== suite failed; re-running once" >> $LOG
+  go test -vet=off -count=1 ./... 2>&1 | grep -v "no test files" | tail -40 >> $LOG
+  SUITE=${PIPESTATUS[0]}
+fi
 echo "SUITE-EXIT=$SUITE" >> $LOG
 cp $O/$DEMO $W/$PKG/$DEMO
 echo "== with patch: demo" >> $LOG
